@@ -31,6 +31,14 @@ NUM.2: /[0-9]+/
 %import common.WS_INLINE
 %ignore WS_INLINE
 '''
+FLAGS_G = '''
+start: (A | B | C | W)+
+A: "a"i
+B: /[a-z]/s
+C: /[0-9.]/
+W: "if"i
+%ignore " "
+'''
 MULTI_G = '''
 start: item ("," item)*
 item: WORD | "<" start ">"
@@ -56,6 +64,9 @@ CONFIGS = {
     'maybe-off': (lambda: MAYBE_G, dict(lexer='basic', maybe_placeholders=False), 'tokens'),
     'multi-start': (lambda: MULTI_G, dict(lexer='contextual', start=['start', 'item']), None),
     'many-terminals': (_many_grammar, dict(lexer='contextual'), 'many'),
+    # string and regexp terminals with different flag sets (the keyword/unless decision compares flag sets)
+    'flags-basic': (lambda: FLAGS_G, dict(lexer='basic'), None),
+    'flags-ctx': (lambda: FLAGS_G, dict(lexer='contextual'), None),
 }
 LEXEMES = {'tokens': ['let', 'x', '=', '7', ';', '+', '(', ')', '[', ']', ',', ' '],
            'many': ['k000', 'k098', 'k099', 'k100', 'k101', 'k129', 'kx', ' ', 'k1290']}
@@ -193,7 +204,7 @@ def check(cs: List[int], api: int, si: int) -> bool:
 def plan(tier, seed):
     quick = tier == 'quick'
     Ks = {'lines-ctx-pp': 8, 'lines-basic-kat': 8, 'lines-bytes': 8, 'kw-ctx': 14, 'kw-iflag': 11, 'nlvia-ctx': 8, 'maybe-on': 12, 'maybe-off': 12, 'multi-start': 6,
-          'many-terminals': 9}
+          'many-terminals': 9, 'flags-basic': 12, 'flags-ctx': 12}
     slices = []
     for cfg, k in Ks.items():
         Lc = (2 if k >= 11 else 3) if quick else (3 if k >= 11 else 4)
